@@ -79,7 +79,10 @@ void gen_sloppy_ops(Rng &ro, std::vector<Op> &ops, int nops, const std::vector<B
             if (!names.empty() && ro.chance(3, 4)) { Bytes n = names[ro.below(names.size())]; unsigned m = (unsigned)ro.below(10); if (m == 0 && !n.empty()) n.pop_back(); else if (m == 1) n.push_back((uint8_t)ro.below(256)); return n; }
             Bytes n(ro.below(4)); for (auto &x : n) x = (uint8_t)("ab\x00\x7f\x80\xff"[ro.below(6)]); return n;
         };
-        if (c < 200) ops.push_back(mk(P_NEXT));
+        if (c < 60) {           // a caller that walks down: next, then try to enter whatever it found (the wrong kind is harmless)
+            ops.push_back(mk(P_NEXT)); ops.push_back(mk(ro.chance(1, 2) ? P_ENTER_OBJ : P_ENTER_ARR)); ops.push_back(mk(ro.chance(1, 2) ? P_ENTER_ARR : P_ENTER_OBJ)); i += 2;
+        }
+        else if (c < 200) ops.push_back(mk(P_NEXT));
         else if (c < 260) ops.push_back(mk(P_ENTER_OBJ));
         else if (c < 310) ops.push_back(mk(P_ENTER_ARR));
         else if (c < 360) ops.push_back(mk(P_LEAVE_OBJ));
